@@ -189,6 +189,163 @@ def _apply_text(text, subs):
     return text
 
 
+# ------------------------------------------------------------------------------------------------ impl blocks
+
+def _match_angle(text, i):
+    """text[i] == '<' -> index of the matching '>' (a `->` is not a bracket), or -1."""
+    depth = 0
+    j = i
+    n = len(text)
+    while j < n:
+        c = text[j]
+        if c == "<":
+            depth += 1
+        elif c == ">" and text[j - 1] != "-":
+            depth -= 1
+            if depth == 0:
+                return j
+        elif c == '"':
+            return -1
+        j += 1
+    return -1
+
+
+def _split_for(content):
+    """`Trait<A> for Type<B>` -> (trait text, type text); `Type<B>` -> (None, type text)."""
+    depth = 0
+    i = 0
+    while i < len(content):
+        c = content[i]
+        if c == "<":
+            depth += 1
+        elif c == ">" and content[i - 1] != "-":
+            depth -= 1
+        elif depth == 0 and content.startswith(" for ", i):
+            return content[:i], content[i + 5:]
+        i += 1
+    return None, content
+
+
+def _strip_generics(t):
+    return re.sub(r"<.*$", "", t.lstrip("&").replace("mut ", "").strip())
+
+
+def impl_occurrences(text):
+    """Every `MOD::<impl ...>` in text: (start, end, module, trait text or None, type text)."""
+    out = []
+    pos = 0
+    while True:
+        i = text.find("::<impl ", pos)
+        if i < 0:
+            break
+        lt = i + 2
+        j = _match_angle(text, lt)
+        if j < 0:
+            pos = i + 8
+            continue
+        k = i
+        while k > 0 and (text[k - 1].isalnum() or text[k - 1] in "_:"):
+            k -= 1
+        mod = text[k:i]
+        tr, ty = _split_for(text[lt + 6:j])
+        out.append((k, j + 1, mod, tr, ty))
+        pos = j + 1
+    return out
+
+
+def _qualified(tr, ty):
+    """The path prefix rustc prints for an impl block written next to its type or trait."""
+    if tr is not None:
+        return "<%s as %s>" % (ty, tr)
+    m = re.match(r"^([A-Za-z0-9_:]+)(<.*>)?$", ty)
+    if not m:
+        return "<%s>" % ty
+    return m.group(1) + ("::" + m.group(2) if m.group(2) else "")
+
+
+def canon_impl_form(name):
+    """A function path with every `MOD::<impl T for X>` written as `<X as T>` (for comparison only)."""
+    occ = impl_occurrences(name)
+    if not occ:
+        return name
+    out = []
+    last = 0
+    for (a, b, mod, tr, ty) in occ:
+        out.append(name[last:a])
+        out.append(_qualified(tr, ty))
+        last = b
+    out.append(name[last:])
+    return "".join(out)
+
+
+def _phase_impl_blocks(raw, ref, kind, report):
+    """Impl blocks that moved to another module change the *form* of the paths of their items:
+    `<X as T>::m` <-> `MOD::<impl T for X>::m`, `X::<G>::m` <-> `MOD::<impl X<G>>::m`. Returns a block mapping
+    (module, trait path, type path) -> how the pinned tree writes that block."""
+    rfns = _ref_section(ref, "fns", kind)
+    rtraits = _ref_section(ref, "traits", kind)
+    cur_names = [n for n in raw["mir"] if "{closure#" not in n]
+    missing = set(rfns) - set(cur_names)
+    if not missing:
+        return {}
+    canon_missing = {}
+    for m in missing:
+        canon_missing.setdefault(canon_impl_form(m), []).append(m)
+    cur_traits = {t["path"] for t in raw["traits"]}
+    gone_traits = {t: v for t, v in rtraits.items() if t not in cur_traits}
+    mapping = {}
+    for n in cur_names:
+        if n in rfns:
+            continue
+        occ = impl_occurrences(n)
+        if len(occ) != 1:
+            continue
+        a, b, mod, tr, ty = occ[0]
+        key = (mod, _strip_generics(tr) if tr else None, _strip_generics(ty))
+        c = canon_impl_form(n)
+        if c in rfns and c in missing:
+            mapping.setdefault(key, ("qualified",))
+            report["functions"].append({"pinned": c, "now": n, "how": "impl block written in another module"})
+            continue
+        for m in canon_missing.get(c, []):
+            mo = impl_occurrences(m)
+            if len(mo) == 1 and mo[0][2] != mod:
+                mapping.setdefault(key, ("impl", mo[0][2]))
+                report["functions"].append({"pinned": m, "now": n, "how": "impl block moved between modules"})
+        if tr is None:
+            # an inherent method that used to be the method of a private trait which no longer exists
+            seg = n[b:]
+            for t, v in gone_traits.items():
+                cand = "<%s as %s>%s" % (ty, t, seg)
+                if cand in missing and len(v["impls"]) == 1:
+                    mapping.setdefault(key, ("astrait", t))
+                    report["functions"].append({"pinned": cand, "now": n, "how": "trait dissolved into an inherent impl"})
+    return mapping
+
+
+def _reform_text(text, mapping):
+    occ = impl_occurrences(text)
+    if not occ:
+        return text
+    out = []
+    last = 0
+    for (a, b, mod, tr, ty) in occ:
+        key = (mod, _strip_generics(tr) if tr else None, _strip_generics(ty))
+        how = mapping.get(key)
+        if how is None:
+            continue
+        out.append(text[last:a])
+        if how[0] == "qualified":
+            out.append(_qualified(tr, ty))
+        elif how[0] == "impl":
+            out.append("%s::<impl %s>" % (how[1], ("%s for %s" % (tr, ty)) if tr else ty))
+        else:
+            out.append("<%s as %s>" % (ty, how[1]))
+        last = b
+    out.append(text[last:])
+    return "".join(out)
+
+
 # ------------------------------------------------------------------------------------------------ phases
 
 def _ref_section(ref, sect, kind):
@@ -494,12 +651,22 @@ def normalize(text):
     report["enabled"] = True
     kind = raw["kind"]
     changed = False
+    mapping = _phase_impl_blocks(raw, ref, kind, report)
+    if mapping:
+        text = _reform_text(text, mapping)
+        raw = json.loads(text)
+        changed = True
     cur = shapes(raw)
     subs = _phase_types(cur, ref, kind, report)
     if subs:
         text = _apply_text(text, subs)
         raw = json.loads(text)
         changed = True
+        # with the type names restored, impl blocks that moved along with their type can be recognised
+        mapping = _phase_impl_blocks(raw, ref, kind, report)
+        if mapping:
+            text = _reform_text(text, mapping)
+            raw = json.loads(text)
     for _ in range(4):
         cur = shapes(raw)
         subs = _phase_fns(cur, ref, kind, report)
